@@ -19,7 +19,7 @@ P = {
  'C04': ('model_checking', 'TLA+ framer model (MC_Framer, TLC) + TLC validation of real runs with 16-50 MiB messages over run-length-encoded streams (TraceBig.tla, PMAX=2^24-1)',
          'The framer design is model-checked for all message lengths around multiples of a small PMAX and all write compositions (and the pinned header-counting deviation is shown to fail); real runs with messages of k*(2^24-1)+d bytes are split and reassembled by TLC with the real PMAX.',
          'RLE representation of streams; sampled sizes', '6/C04'),
- 'C05': ('model_checking', 'TLC trace validation: sequence-id arithmetic mod 256 on every decoded exchange (Trace.tla); MC_Framer covers the counter',
+ 'C05': ('model_checking', 'TLC trace validation: sequence-id arithmetic mod 256 on every decoded exchange (Trace.tla); MC_Framer covers the counter; Apalache-checked inductive invariant of apalache/SeqAbs.tla (unbounded exchanges and packets per exchange, 3 deviations must break it)',
          'Every packet of every exchange of every recorded run must carry request-last-id + 1 + j (mod 256); generators sweep all 256 request ids and responses of up to 700 packets.',
          'sampled response lengths', '6/C05'),
  'C06': ('model_checking', 'TLC trace validation with Codec.tla text decoders (limb-arithmetic decimal parser, date/time grammars); floats cross-checked by exact rational arithmetic',
